@@ -22,7 +22,7 @@ from ..envs import generator_class
 from ..model import AnalysisError
 from .C10 import is_neg_inf as C10_is_neg_inf
 
-FLOOR = 61
+FLOOR = 66
 EXPLANATION = (
     "Static layout analysis of every site that merges/splits a replica axis with the batch axis in rl4co/utils/ops.py, "
     "utils/decoding.py, zoo/pomo, zoo/symnco, tasks/eval.py, zoo/am/decoder.py, data/transforms.py and the env "
